@@ -1,2 +1,59 @@
--- stub: driver for C13 not written yet
-def main : IO Unit := pure ()
+import CMacVerif.Model.Ranlux
+import CMacVerif.Util.Bits
+open CMacVerif CMacVerif.Util CMacVerif.Ranlux
+
+/-- the double `k * 2^-48` (exact: |k| < 2^53 converts exactly, the scaling is a power of two) -/
+def toF (k : Int) : Float :=
+  let m : Float := (Float.ofNat k.natAbs) / 281474976710656.0
+  if k < 0 then -m else m
+
+def bitsOfInt (k : Int) : Nat := bitsOf (toF k)
+
+def showState (s : State) : String :=
+  let xs := (List.range 12).map (fun i => toString (bitsOfInt (rd s.x i)))
+  s!"{" ".intercalate xs} {bitsOfInt s.carry} {s.ir} {s.jr} {s.irOld} {s.pr}"
+
+def intOf (w : String) : Int :=
+  if w.startsWith "-" then -((w.drop 1).toNat?.getD 0 : Nat) else (w.toNat?.getD 0 : Nat)
+
+/-- which part of the generator a draw exercised -/
+def tagOf (s : State) : String :=
+  let ir := (s.ir + 1) % 12
+  if ir = s.irOld then s!"refill-ir{ir}" else "plain"
+
+/-- `k` draws: polynomial hash (mod 2^64) of the bit patterns, minimum and maximum value -/
+def skipLoop : Nat → State → Nat → Int → Int → State × Nat × Int × Int
+  | 0, s, h, lo, hi => (s, h, lo, hi)
+  | n + 1, s, h, lo, hi =>
+    let (v, s') := next exact s
+    let h := (h * 6364136223846793005 + bitsOfInt v + 1442695040888963407) % 18446744073709551616
+    skipLoop n s' h (if v < lo then v else lo) (if v > hi then v else hi)
+
+/-- index of the first of the first `n` draws in which two generators differ (`-1`: none) -/
+def firstDiff : Nat → Nat → State → State → Int
+  | 0, _, _, _ => -1
+  | n + 1, i, a, b =>
+    let (u, a') := next exact a
+    let (v, b') := next exact b
+    if u ≠ v then (i : Int) else firstDiff n (i + 1) a' b'
+
+def step (s : State) : List String → State × String
+  | ["seed", n] =>
+    let s' := seedState exact (intOf n)
+    (s', s!"seed {showState s'}")
+  | ["next"] =>
+    let (v, s') := next exact s
+    (s', s!"next {bitsOfInt v} #{tagOf s}")
+  | ["skip", k] =>
+    let (s', h, lo, hi) := skipLoop (nat! k) s 0 B (-1)
+    (s', s!"skip {h} {bitsOfInt lo} {bitsOfInt hi}")
+  | ["differ", a, b] =>
+    (s, s!"differ {firstDiff 24 0 (seedState exact (intOf a)) (seedState exact (intOf b))}")
+  | ["dump"] => (s, s!"dump {showState s}")
+  | ["restore"] =>
+    match restore (dump s) with
+    | some s' => (s', s!"restore {showState s'}")
+    | none => (s, "restore-error")
+  | _ => (s, "bad-op")
+
+def main : IO Unit := runDriver step (seedState exact 42)
